@@ -125,13 +125,13 @@ class NumpyBackendProvider(BackendProvider):
     def _compiled_helpers(self):
         """Helpers for compiled code where a bare Python/numpy operator would not follow the verb:
         Divide and Power go through the verb implementations (zero divisor, integral results);
-        reduce/scan shortcuts only apply to non-empty arrays and otherwise raise so that the
+        reduce/scan shortcuts only apply to non-empty numeric arrays and otherwise raise so that the
         caller falls back to the interpreter."""
         from ..dyads import eval_dyad_divide, eval_dyad_power
 
         def _vec(x):
-            if not isinstance(x, np.ndarray) or x.ndim == 0 or x.size == 0:
-                raise TypeError("compiled reduce/scan needs a non-empty array")
+            if not isinstance(x, np.ndarray) or x.ndim == 0 or x.size == 0 or x.dtype == object:
+                raise TypeError("compiled reduce/scan needs a non-empty numeric array")
             return x
 
         return {
